@@ -755,6 +755,28 @@ func runGlobal(c *core.Ctx) []core.Obligation {
 								writes = true
 							}
 						}
+						// a store into a field or element of the variable (g.f = v, g[i] = v) ...
+						base := x.Addr
+						for i := 0; i < 6; i++ {
+							switch y := base.(type) {
+							case *ssa.FieldAddr:
+								base = y.X
+							case *ssa.IndexAddr:
+								base = y.X
+							}
+						}
+						if base == ssa.Value(g) {
+							writes = true
+						}
+						// ... and the variable's address stored somewhere (p.rel = &g): whoever reads it may write g
+						if x.Val == ssa.Value(g) {
+							writes = true
+						}
+					case *ssa.MakeInterface:
+						// &g converted to an interface value: its methods may write g
+						if x.X == ssa.Value(g) {
+							writes = true
+						}
 					case *ssa.MapUpdate:
 						if ld, ok := x.Map.(*ssa.UnOp); ok && ld.X == ssa.Value(g) {
 							writes = true
